@@ -358,3 +358,67 @@ func Harness_C20_QueryCombined() {
 	}
 	vCover("combined-query-done")
 }
+
+// Retention next to live delivery: what is retained for a publication is
+// what was published - not what was built for, or later modified by, one of
+// the live subscribers (also C12: a reader of the history never learns the
+// publisher's identity through an entry built for somebody who was allowed to)
+func Harness_C20_RetainedNotTheDeliveredEvent() {
+	b, err := newBroker(vNopLog{}, false, true, false, nil, []*TopicEventHistoryConfig{{Topic: "h.t", MatchPolicy: wamp.MatchExact, Limit: 3}})
+	vAssert("broker-created", err == nil)
+	pub := vNewSess(81, wamp.Dict{"authid": "paula", "authrole": "ops"}, nil, 32)
+	nSubs := vChoice("live-subscribers", 3)
+	var subs []*vSess
+	for i := 0; i < nSubs; i++ {
+		ident := vBool("subscriber.publisher_identification")
+		local := vBool("subscriber.in-process")
+		s := vNewSessKind(wamp.ID(91+i), nil, vFeat("subscriber", map[string]bool{"publisher_identification": ident}), 16, local)
+		b.subscribe(s.s, &wamp.Subscribe{Request: 1, Topic: "h.t"})
+		vSyncBroker(b)
+		s.vDrain()
+		subs = append(subs, s)
+	}
+	opts := wamp.Dict{}
+	if vBool("disclose_me") {
+		opts["disclose_me"] = true
+	}
+	arg := vInt64("arg")
+	b.publish(pub.s, &wamp.Publish{Request: 5, Topic: "h.t", Options: opts, Arguments: wamp.List{arg}, ArgumentsKw: wamp.Dict{"k": arg}})
+	vSyncBroker(b)
+	// in-process subscribers own what they received and may modify it
+	for _, s := range subs {
+		for _, m := range s.vDrain() {
+			if e, ok := m.(*wamp.Event); ok && s.s.IsLocal() {
+				if e.Details != nil {
+					e.Details["scribble"] = true
+				}
+				if len(e.Arguments) > 0 {
+					e.Arguments[0] = "scribble"
+				}
+				if e.ArgumentsKw != nil {
+					e.ArgumentsKw["k"] = "scribble"
+				}
+			}
+		}
+	}
+	lk := b.subLookup(&wamp.Invocation{Request: 1, Arguments: wamp.List{wamp.URI("h.t")}})
+	subID, _ := wamp.AsID(lk.(*wamp.Yield).Arguments[0])
+	evs, ok := vHistEvents(b.subEventHistory(&wamp.Invocation{Request: 2, Arguments: wamp.List{subID}}))
+	vAssert("one-entry-retained", ok && len(evs) == 1)
+	if ok && len(evs) == 1 {
+		se, isSE := vStoredEventOf(evs[0])
+		vAssert("history-entry-type", isSE)
+		if isSE {
+			vAssert("retained-arguments-are-the-published-ones", len(se.Arguments) == 1 && se.Arguments[0] == any(arg) && len(se.ArgumentsKw) == 1 && se.ArgumentsKw["k"] == any(arg))
+			_, scribbled := se.Details["scribble"]
+			vAssert("retained-details-not-a-subscribers-copy", !scribbled)
+			_, p1 := se.Details["publisher"]
+			_, p2 := se.Details["publisher_authid"]
+			_, p3 := se.Details["publisher_authrole"]
+			vAssert("history-does-not-disclose-the-publisher", !p1 && !p2 && !p3)
+		}
+	}
+	if nSubs > 0 {
+		vCover("retained-next-to-live-delivery")
+	}
+}
